@@ -35,6 +35,9 @@ RULE = (
     "A case is non-trivial when the matrix/data are not all zero; distinct by content hash"
 )
 PARTIAL = [
+    "translator: `_select_number_eigencomponents` is re-parsed with `ast` on every run into lean/FDAModel/Generated/SelectNpc.lean and "
+    "proved equal to the model's selectNpc (C01.source_selectNpc); when the source shape is not recognised the last generated file is "
+    "kept, coverage.translator says so and the tie rests on the correspondence only",
     "numpy.linalg.eig is a parameter: its output is captured, not verified; its eigen-residual is measured by the oracle (pairing clause)",
     "irregular data: the eigen helper receives the smoothed covariance; only dense fits are sampled at the estimator level",
     "fraction decisions whose exact margin is < 1e-9 are counted as ties and skipped by the oracle (the model still decides them exactly)",
